@@ -281,7 +281,7 @@ func proxyRefs(rel, fn string) []string {
 	return out
 }
 
-func structFields(rel, name string) []string {
+func pgStructFieldNames(rel, name string) []string {
 	f := parseFile(rel)
 	if f == nil {
 		return nil
@@ -360,7 +360,7 @@ func genPgCoder() {
 	lf.def("myUpdateLiteralCase", "List String", strList(linear(body)),
 		"encryptor/mysql/utils.go: UpdateExpressionValue – statements of that case in source order (log calls dropped)")
 	const prel = "decryptor/postgresql/pg_decryptor.go"
-	lf.def("pgProxyFields", "List String", strList(structFields(prel, "PgProxy")), prel+": fields of PgProxy in source order")
+	lf.def("pgProxyFields", "List String", strList(pgStructFieldNames(prel, "PgProxy")), prel+": fields of PgProxy in source order")
 	lf.def("pgRowHandlerRefs", "List String", strList(proxyRefs(prel, "handleQueryDataPacket")),
 		prel+": PgProxy.handleQueryDataPacket – the distinct proxy.<field|method> it refers to (sorted)")
 	for _, fn := range []string{"onPrepare", "onExecute", "onDeallocate"} {
